@@ -57,7 +57,9 @@ struct pop {
   bool fwd{true};
   int halt_after{-1};
   bool quiesce_after{false};
+  int cut{-1}, cut2{-1};  // scan bounds of byte-string programs: keep only this many leading bytes (-1 = the whole key)
 };
+inline bytes cut_bound(const bytes& k, int cut) { return cut < 0 || static_cast<std::size_t>(cut) >= k.size() ? k : k.substr(0, static_cast<std::size_t>(cut)); }
 
 struct program {
   std::string family, keykind;
@@ -74,6 +76,8 @@ struct program {
         json j = json::object().set("op", names[o.kind]);
         if (o.kind <= OP_REMOVE || o.kind >= OP_SCAN_FROM) if (o.kind != OP_QUIESCENT) j.set("key", vh::hex(universe[static_cast<std::size_t>(o.key)]));
         if (o.kind == OP_SCAN_RANGE) j.set("to", vh::hex(universe[static_cast<std::size_t>(o.key2)]));
+        if (o.cut >= 0) j.set("from_cut_to_bytes", o.cut);
+        if (o.cut2 >= 0) j.set("to_cut_to_bytes", o.cut2);
         if (o.kind >= OP_SCAN && o.kind <= OP_SCAN_RANGE) { j.set("fwd", o.fwd); if (o.halt_after >= 0) j.set("halt_after", o.halt_after); }
         if (o.quiesce_after) j.set("then", "quiescent");
         ops.push(j);
@@ -194,6 +198,10 @@ program make_program(vh::rng& r, bool small, const vh::args& a, bool byte_string
         o.fwd = r.chance(0.5);
         if (r.chance(0.3)) o.halt_after = 1 + static_cast<int>(r.below(4));
         if (!read_targets.empty() && r.chance(0.5)) o.key = index_of(read_targets[r.below(read_targets.size())]);
+        if (byte_string_keys && r.chance(0.25)) {  // a bound that is a proper prefix of the keys
+          if (r.chance(0.7)) o.cut = static_cast<int>(r.below(Lfull));
+          if (o.kind == OP_SCAN_RANGE && r.chance(0.6)) o.cut2 = static_cast<int>(r.below(Lfull));
+        }
       } else {
         const auto x = r.below(100);
         o.kind = x < 40 ? OP_GET : (x < 70 ? OP_INSERT : OP_REMOVE);
@@ -368,7 +376,9 @@ struct runner {
         quiescent(t);
         return;
       default: {
-        const bytes& k2 = P->universe[static_cast<std::size_t>(o.key2)];
+        const bytes k2 = cut_bound(P->universe[static_cast<std::size_t>(o.key2)], o.cut2);
+        const bytes kc = cut_bound(k, o.cut);
+        if (o.cut >= 0 || o.cut2 >= 0) rep().count("scans_with_prefix_bounds");
         auto fn = [&](const auto& v) {
           const auto kv = v.get_key();
           bytes kk(reinterpret_cast<const char*>(kv.data()), kv.size());
@@ -385,8 +395,8 @@ struct runner {
         rc.call = stamp();
         barrier();
         if (o.kind == OP_SCAN) db->scan(fn, o.fwd);
-        else if (o.kind == OP_SCAN_FROM) db->scan_from(keyconv<K>::to(k), fn, o.fwd);
-        else db->scan_range(keyconv<K>::to(k), keyconv<K>::to(k2), fn);
+        else if (o.kind == OP_SCAN_FROM) db->scan_from(keyconv<K>::to(kc), fn, o.fwd);
+        else db->scan_range(keyconv<K>::to(kc), keyconv<K>::to(k2), fn);
         barrier();
         rc.ret = stamp();
         break;
@@ -507,8 +517,8 @@ void judge(Db& db, const program& p, exec_state& x, u64 end_stamp) {
     for (const auto& rc : tr) {
       if (rc.op.kind < OP_SCAN || rc.op.kind > OP_SCAN_RANGE) continue;
       rep().count("scans_judged");
-      const bytes& a = p.universe[static_cast<std::size_t>(rc.op.key)];
-      const bytes& b = p.universe[static_cast<std::size_t>(rc.op.key2)];
+      const bytes a = cut_bound(p.universe[static_cast<std::size_t>(rc.op.key)], rc.op.cut);
+      const bytes b = cut_bound(p.universe[static_cast<std::size_t>(rc.op.key2)], rc.op.cut2);
       bool fwd = true;
       (void)in_interval(rc.op, a, a, b, &fwd);
       json sj = json::object().set("thread", rc.thread).set("call", rc.call).set("ret", rc.ret).set("halted", rc.halted);
